@@ -1,6 +1,7 @@
 package main
 
 import (
+	"go/types"
 	"bufio"
 	"encoding/json"
 	"fmt"
@@ -133,6 +134,38 @@ func (c *checkCtx) newRefutedInCleanFunction(g *gen, o *Obligation) bool {
 		}
 	}
 	return !c.frontierFuncs[g.key]
+}
+
+// scratchFieldExists: name is "checkers.(T).f/scratch/..." - does type T of package checkers still have a field f?
+func (c *checkCtx) scratchFieldExists(name string) bool {
+	head := name
+	if i := strings.Index(head, "/scratch/"); i >= 0 {
+		head = head[:i]
+	}
+	l, r := strings.Index(head, "("), strings.Index(head, ")")
+	if l < 0 || r < l || r+2 > len(head) {
+		return true
+	}
+	tname, fname := head[l+1:r], head[r+2:]
+	pkgShort := strings.TrimSuffix(head[:l], ".")
+	p := c.e.byPkg[repoMod+"/"+pkgShort]
+	if p == nil || p.Types == nil {
+		return true
+	}
+	tn, ok := p.Types.Scope().Lookup(tname).(*types.TypeName)
+	if !ok {
+		return false
+	}
+	st, ok := tn.Type().Underlying().(*types.Struct)
+	if !ok {
+		return false
+	}
+	for i := 0; i < st.NumFields(); i++ {
+		if st.Field(i).Name() == fname {
+			return true
+		}
+	}
+	return false
 }
 
 type directResult struct {
@@ -325,6 +358,12 @@ func runCheck(repo, prop, tier string, rest []string) int {
 		for _, name := range strings.Split(strings.TrimSpace(string(exp)), "\n") {
 			name = strings.TrimSpace(name)
 			if name == "" || strings.HasPrefix(name, "#") || have[name] {
+				continue
+			}
+			// only the disappearance of a scratch-state obligation means something (the field is no longer recognised as
+			// state that needs a reset) - and only while the field still exists. Loops, recursive functions, map ranges and
+			// the like come and go with ordinary refactorings: when they vanish there is nothing left to prove.
+			if !strings.Contains(name, "/scratch/") || !c.scratchFieldExists(name) {
 				continue
 			}
 			c.direct = append(c.direct, &directResult{Name: name, OK: false, Detail: "this obligation is generated on the unchanged tree (ledger/" + prop + ".direct) but is no longer generated: the code it speaks about changed so that the generator does not recognise it any more (e.g. the only reset of a scratch field was removed)"})
